@@ -14,7 +14,7 @@ import (
 func init() { register("C02", runC02) }
 
 func runC02(c *Check, tier string) {
-	c.Decides = "nothing location-, time-, host- or environment-dependent flows into any hasher; commands are reachable only through the executing method and the output-check runner, whose callers are the gate and the dependency re-run; after a successful restore the gate cannot fall through to execution; dependants key on their dependencies' output digests (not change hashes) and every target dependency contributes; a restore creates the parent directory of everything it creates."
+	c.Decides = "nothing location-, time-, host- or environment-dependent flows into any hasher; commands are reachable only through the executing method and the output-check runner, whose callers are the gate and the dependency re-run; after a successful restore the gate cannot fall through to execution; dependants key on their dependencies' output digests (not change hashes) and every target dependency contributes; a restore creates the parent directory of everything it creates; the result writer always stores (no shortcut on an existing entry); the identifier recorded for an output is the declared identifier verbatim (what the restore validation compares)."
 	c.NotDec = "which keys actually change for a given edit, counts of executed commands per build, the reference model of the caching rules."
 	ruleKeyPurity(c, "R02a")
 	ruleR02b(c)
